@@ -94,7 +94,11 @@ def groups(cfg):
         return None
     d = {}
     for g in cfg:
-        if g["kind"] == "merge":
+        if g.get("form") == "tuple":
+            d[g["name"]] = (list(g["labels"]), g["kind"] == "single")
+        elif g.get("form") == "tuple_scalar":
+            d[g["name"]] = (g["labels"][0], g["kind"] == "single")
+        elif g["kind"] == "merge":
             d[g["name"]] = LabelMergeGroup(list(g["labels"]), single_instance=False)
         elif g["kind"] == "merge_single":
             d[g["name"]] = LabelMergeGroup(list(g["labels"]), single_instance=True)
